@@ -127,81 +127,70 @@ theorem readBlocks_blocks (cfg : Cfg) (codec : Codec) (crc : Checksum) (blocks :
   rw [List.append_nil, readBlocksP_nil] at this
   simp [readBlocks, this]
 
-/-- `NewFileReader` on any file that starts with a valid V3 header and its name -/
-theorem openReader_prefix (h : FileHeader) (name tail : Bytes)
-    (hv : h.Valid) (h3 : h.version = 3) (hn : h.nameLength = name.length) :
+/-- How a valid header relates to the name bytes that follow it: a V3 header counts them, a
+    V2 (legacy) header is followed directly by the blocks. -/
+def NameOk (h : FileHeader) (name : Bytes) : Prop :=
+  (h.version = 3 ∧ h.nameLength = name.length) ∨ (h.version = 2 ∧ name = [])
+
+/-- `NewFileReader` on any file that starts with a valid header and its name -/
+theorem openReader_prefix (h : FileHeader) (name tail : Bytes) (hv : h.Valid) (hn : NameOk h name) :
     openReader (encodeFileHeader h ++ (name ++ tail)) = .ok ⟨h, name⟩ := by
   have hl := encodeFileHeader_length h
   unfold openReader
   rw [if_neg (by simp [hl])]
   rw [take_append_len _ _ 64 hl, decodeFileHeader_encode h hv]
-  simp only [h3, beq_self_eq_true, Bool.true_and]
-  by_cases hz : 0 < h.nameLength
-  · simp only [hz, decide_true, if_true]
-    rw [if_neg (by simp [hl, hn])]
-    rw [drop_append_len _ _ 64 hl, hn, take_append_len _ _ _ rfl]
-  · have hz' : h.nameLength = 0 := by omega
-    have hne : name = [] := by
-      cases name with
-      | nil => rfl
-      | cons _ _ => simp at hn; omega
-    simp [hz', hne]
+  rcases hn with ⟨h3, hn⟩ | ⟨h2, hn⟩
+  · simp only [h3, beq_self_eq_true, Bool.true_and]
+    by_cases hz : 0 < h.nameLength
+    · simp only [hz, decide_true, if_true]
+      rw [if_neg (by simp [hl, hn])]
+      rw [drop_append_len _ _ 64 hl, hn, take_append_len _ _ _ rfl]
+    · have hz' : h.nameLength = 0 := by omega
+      have hne : name = [] := by
+        cases name with
+        | nil => rfl
+        | cons _ _ => simp at hn; omega
+      simp [hz', hne]
+  · subst hn
+    simp [h2]
 
-theorem drop_dataStart (h : FileHeader) (name tail : Bytes) (h3 : h.version = 3) (hn : h.nameLength = name.length) :
+theorem drop_dataStart (h : FileHeader) (name tail : Bytes) (hn : NameOk h name) :
     (encodeFileHeader h ++ (name ++ tail)).drop h.dataStart = tail := by
-  have hds : h.dataStart = 64 + name.length := by simp [FileHeader.dataStart, h3, hn]
+  have hds : h.dataStart = 64 + name.length := by
+    rcases hn with ⟨h3, hn⟩ | ⟨h2, hn⟩
+    · simp [FileHeader.dataStart, h3, hn]
+    · subst hn; simp [FileHeader.dataStart, h2]
   rw [hds, ← List.append_assoc]
   exact drop_append_len _ _ _ (by simp [encodeFileHeader_length])
 
-/-- `NewFileReader` on a rendered V3 file -/
+/-- `NewFileReader` on a rendered file -/
 theorem openReader_render (codec : Codec) (crc : Checksum) (h : FileHeader) (name : Bytes)
-    (blocks : List (List Entry)) (hv : h.Valid) (h3 : h.version = 3) (hn : h.nameLength = name.length) :
-    openReader (render codec crc h name blocks) = .ok ⟨h, name⟩ := by
-  have hl := encodeFileHeader_length h
-  unfold openReader render
-  rw [if_neg (by simp [hl])]
-  rw [take_append_len _ _ 64 hl, decodeFileHeader_encode h hv]
-  simp only [h3, beq_self_eq_true, Bool.true_and]
-  by_cases hz : 0 < h.nameLength
-  · simp only [hz, decide_true, if_true]
-    rw [if_neg (by simp [hl, hn])]
-    rw [drop_append_len _ _ 64 hl, hn, take_append_len _ _ _ rfl]
-  · have hz' : h.nameLength = 0 := by omega
-    have hne : name = [] := by
-      cases name with
-      | nil => rfl
-      | cons _ _ => simp at hn; omega
-    simp [hz', hne]
-
-theorem dataStart_render (h : FileHeader) (name : Bytes) (h3 : h.version = 3) (hn : h.nameLength = name.length) :
-    h.dataStart = 64 + name.length := by
-  simp [FileHeader.dataStart, h3, hn]
+    (blocks : List (List Entry)) (hv : h.Valid) (hn : NameOk h name) :
+    openReader (render codec crc h name blocks) = .ok ⟨h, name⟩ :=
+  openReader_prefix h name _ hv hn
 
 /-- `ReadAllEntries` of a rendered file returns the written entries. -/
 theorem readAll_render (cfg : Cfg) (codec : Codec) (crc : Checksum) (h : FileHeader) (name : Bytes)
-    (blocks : List (List Entry)) (hv : h.Valid) (h3 : h.version = 3) (hn : h.nameLength = name.length)
+    (blocks : List (List Entry)) (hv : h.Valid) (hn : NameOk h name)
     (hg : ∀ b ∈ blocks, GoodBlock b) :
     readAll cfg codec.toDecoder crc (render codec crc h name blocks) = .ok blocks.flatten := by
   unfold readAll
-  rw [openReader_render codec crc h name blocks hv h3 hn]
+  rw [openReader_render codec crc h name blocks hv hn]
   simp only
-  rw [dataStart_render h name h3 hn]
-  have : (render codec crc h name blocks).drop (64 + name.length) = renderBlocks codec crc blocks := by
-    unfold render
-    rw [← List.append_assoc]
-    exact drop_append_len _ _ _ (by simp [encodeFileHeader_length])
+  have : (render codec crc h name blocks).drop h.dataStart = renderBlocks codec crc blocks :=
+    drop_dataStart h name _ hn
   rw [this, readBlocks_blocks cfg codec crc blocks hg]
 
 /-- `LoadIndex` of a rendered file is the replay of the written entries, and reports the name. -/
 theorem loadIndex_render (cfg : Cfg) (codec : Codec) (crc : Checksum) (h : FileHeader) (name : Bytes)
-    (blocks : List (List Entry)) (hv : h.Valid) (h3 : h.version = 3) (hn : h.nameLength = name.length)
+    (blocks : List (List Entry)) (hv : h.Valid) (hn : NameOk h name)
     (hg : ∀ b ∈ blocks, GoodBlock b) :
     loadIndex cfg codec.toDecoder crc (render codec crc h name blocks)
       = .ok (replay cfg blocks.flatten, if name.isEmpty then metaName blocks.flatten else name) := by
-  have hra := readAll_render cfg codec crc h name blocks hv h3 hn hg
+  have hra := readAll_render cfg codec crc h name blocks hv hn hg
   unfold readAll at hra
   unfold loadIndex
-  rw [openReader_render codec crc h name blocks hv h3 hn] at hra ⊢
+  rw [openReader_render codec crc h name blocks hv hn] at hra ⊢
   simp only at hra ⊢
   rw [hra]
 
@@ -217,38 +206,16 @@ theorem readBlocksP_err (cfg : Cfg) (d : Decoder) (crc : Checksum) (rest : Bytes
     sits: `LoadIndex` reports `ErrEmptyKey` and returns nothing. -/
 theorem loadIndex_poisoned (cfg : Cfg) (codec : Codec) (crc : Checksum) (h : FileHeader) (name : Bytes)
     (before : List (List Entry)) (bad : List Entry) (tail : Bytes)
-    (hv : h.Valid) (h3 : h.version = 3) (hn : h.nameLength = name.length)
+    (hv : h.Valid) (hn : NameOk h name)
     (hg : ∀ b ∈ before, GoodBlock b)
     (hbad : readNextBlock cfg codec.toDecoder crc (encodeBlock codec crc bad ++ tail) = .err .emptyKey) :
     loadIndex cfg codec.toDecoder crc
       (encodeFileHeader h ++ (name ++ (renderBlocks codec crc before ++ (encodeBlock codec crc bad ++ tail))))
       = .error .emptyKey := by
-  have hl := encodeFileHeader_length h
-  have hopen : openReader (encodeFileHeader h ++ (name ++ (renderBlocks codec crc before ++ (encodeBlock codec crc bad ++ tail))))
-      = .ok ⟨h, name⟩ := by
-    unfold openReader
-    rw [if_neg (by simp [hl])]
-    rw [take_append_len _ _ 64 hl, decodeFileHeader_encode h hv]
-    simp only [h3, beq_self_eq_true, Bool.true_and]
-    by_cases hz : 0 < h.nameLength
-    · simp only [hz, decide_true, if_true]
-      rw [if_neg (by simp [hl, hn])]
-      rw [drop_append_len _ _ 64 hl, hn, take_append_len _ _ _ rfl]
-    · have hz' : h.nameLength = 0 := by omega
-      have hne : name = [] := by
-        cases name with
-        | nil => rfl
-        | cons _ _ => simp at hn; omega
-      simp [hz', hne]
   unfold loadIndex
-  rw [hopen]
+  rw [openReader_prefix h name _ hv hn]
   simp only
-  rw [dataStart_render h name h3 hn]
-  have hdrop : (encodeFileHeader h ++ (name ++ (renderBlocks codec crc before ++ (encodeBlock codec crc bad ++ tail)))).drop (64 + name.length)
-      = renderBlocks codec crc before ++ (encodeBlock codec crc bad ++ tail) := by
-    rw [← List.append_assoc]
-    exact drop_append_len _ _ _ (by simp [hl])
-  rw [hdrop]
+  rw [drop_dataStart h name _ hn]
   unfold readBlocks
   rw [readBlocksP_blocks cfg codec crc before _ hg, readBlocksP_err _ _ _ _ _ hbad]
 
